@@ -1,8 +1,209 @@
-/-! Line-protocol driver for component `Core` (stub; the component owner replaces `run`). -/
+import Lean.Data.Json
+import PSO.Model.Raft
+
+/-! Line-protocol driver for component `core`: executes `PSO.Raft.step` (the transition function the
+safety theorems of `PSO/Proofs/Raft*.lean` quantify over) on actions that `harness/corr/core_trace.py`
+derives from what REAL `SyncObj` clusters just did.
+
+One JSON object per line, one JSON reply per line.
+
+```
+{"N":3}                                   start a new trace with N voters (state := PSO.Raft.init)  -> {"ok":true}
+{"a":"timeout","n":i,"dsts":[j…]}
+{"a":"recvReqVote","n":i,"m":M}           M = {"k":"reqVote","t","cand","dst","li","lt"}
+{"a":"recvVote","n":i,"m":M}              M = {"k":"vote","t","voter","cand"}
+{"a":"clientAppend","n":i,"cmd":c}
+{"a":"sendAppend","n":i,"dst":j,"prev":p,"k":cnt}
+{"a":"recvAppend","n":i,"m":M}            M = {"k":"append","t","ldr","dst","prev","prevTerm","es":[[term,cmd]…],"commit"}
+{"a":"recvAck","n":i,"m":M}               M = {"k":"ack","t","flw","ldr","idx"}
+{"a":"advanceCommit","n":i,"i":pos}
+{"a":"stepDown","n":i}   {"a":"apply","n":i}   {"a":"observeTerm","n":i,"t":t}
+{"a":"sendSnapshot","n":i,"dst":j,"k":pos}
+{"a":"recvSnapshot","n":i,"m":M}          M = {"k":"snapshot","t","ldr","dst","pos","posTerm","commit"[,"pfx":[[term,cmd]…]]}
+{"a":"lose","m":M}
+      -> {"ok":true}   |   {"ok":false,"why":"guard"}  (step = none; state unchanged)   |   {"ok":false,"why":"parse: …"}
+{"q":"state"}  -> {"nodes":[{"term","voted":j|null,"role":0|1|2,"votes","log":[[term,cmd]…],"commit","applied","match":[…N…]}…],"nmsgs":k}
+{"q":"msgs"}   -> {"msgs":[M…]}           (snapshot messages are printed with "pfxlen" instead of "pfx")
+```
+The harness does not know the ghost field `pfx` of a snapshot message: without `"pfx"` the driver takes
+the first message of `msgs` that agrees on all other fields.  Positions are the model's (real index − 1).
+
+State is held as functions `Nat → NodeSt`; after every step the node table and every `matchIdx` are
+re-materialised from arrays over `0..N-1` so that closure chains do not grow with the trace.  This is the
+identity on every state the driver can reach: `step` only ever writes nodes `< N`, and the parser
+rejects node numbers `≥ N`, so `matchIdx j` for `j ≥ N` is never written either.
+-/
 namespace Driver.Core
+open Lean PSO.Raft
+
+structure DS where
+  N : Nat := 0
+  s : State := init
+
+def materialise (N : Nat) (s : State) : State :=
+  let arr : Array NodeSt := (Array.range N).map fun i =>
+    let ns := s.nodes i
+    let m : Array Nat := (Array.range N).map ns.matchIdx
+    { ns with matchIdx := fun j => m.getD j 0 }
+  { s with nodes := fun i => arr.getD i {} }
+
+/-! ### parsing -/
+
+def natField (j : Json) (k : String) : Except String Nat := do
+  (← j.getObjVal? k).getNat?
+
+/-- a node number; must be `< N` -/
+def nodeField (N : Nat) (j : Json) (k : String) : Except String Nat := do
+  let n ← natField j k
+  if n < N then pure n else throw s!"node {n} out of range in field {k}"
+
+def parseEntry (j : Json) : Except String Entry := do
+  let a ← j.getArr?
+  if h : a.size = 2 then
+    pure ⟨← a[0].getNat?, ← a[1].getNat?⟩
+  else throw "entry must be [term,cmd]"
+
+def parseEntries (j : Json) : Except String (List Entry) := do
+  (← j.getArr?).toList.mapM parseEntry
+
+def findSnapshot (msgs : List Msg) (t ldr dst k kTerm c : Nat) : Option Msg :=
+  msgs.find? fun m =>
+    match m with
+    | .snapshot t' l' d' k' kt' c' _ => t' == t && l' == ldr && d' == dst && k' == k && kt' == kTerm && c' == c
+    | _ => false
+
+def parseMsg (N : Nat) (s : State) (j : Json) : Except String Msg := do
+  let kind ← (← j.getObjVal? "k").getStr?
+  match kind with
+  | "reqVote" =>
+    pure (.reqVote (← natField j "t") (← nodeField N j "cand") (← nodeField N j "dst")
+                   (← natField j "li") (← natField j "lt"))
+  | "vote" => pure (.vote (← natField j "t") (← nodeField N j "voter") (← nodeField N j "cand"))
+  | "append" =>
+    pure (.append (← natField j "t") (← nodeField N j "ldr") (← nodeField N j "dst") (← natField j "prev")
+                  (← natField j "prevTerm") (← parseEntries (← j.getObjVal? "es")) (← natField j "commit"))
+  | "ack" => pure (.ack (← natField j "t") (← nodeField N j "flw") (← nodeField N j "ldr") (← natField j "idx"))
+  | "snapshot" =>
+    let t ← natField j "t"
+    let ldr ← nodeField N j "ldr"
+    let dst ← nodeField N j "dst"
+    let k ← natField j "pos"
+    let kt ← natField j "posTerm"
+    let c ← natField j "commit"
+    match j.getObjVal? "pfx" with
+    | .ok p => pure (.snapshot t ldr dst k kt c (← parseEntries p))
+    | .error _ =>
+      match findSnapshot s.msgs t ldr dst k kt c with
+      | some m => pure m
+      | none => pure (.snapshot t ldr dst k kt c [])     -- not in `msgs`: the guard of the action fails
+  | _ => throw s!"unknown message kind {kind}"
+
+def parseAction (N : Nat) (s : State) (j : Json) : Except String Action := do
+  let a ← (← j.getObjVal? "a").getStr?
+  match a with
+  | "timeout" =>
+    let ds ← (← (← j.getObjVal? "dsts").getArr?).toList.mapM fun d => do
+      let n ← d.getNat?
+      if n < N then pure n else throw "dst out of range"
+    pure (.timeout (← nodeField N j "n") ds)
+  | "recvReqVote" => pure (.recvReqVote (← nodeField N j "n") (← parseMsg N s (← j.getObjVal? "m")))
+  | "recvVote" => pure (.recvVote (← nodeField N j "n") (← parseMsg N s (← j.getObjVal? "m")))
+  | "clientAppend" => pure (.clientAppend (← nodeField N j "n") (← natField j "cmd"))
+  | "sendAppend" =>
+    pure (.sendAppend (← nodeField N j "n") (← nodeField N j "dst") (← natField j "prev") (← natField j "k"))
+  | "recvAppend" => pure (.recvAppend (← nodeField N j "n") (← parseMsg N s (← j.getObjVal? "m")))
+  | "recvAck" => pure (.recvAck (← nodeField N j "n") (← parseMsg N s (← j.getObjVal? "m")))
+  | "advanceCommit" => pure (.advanceCommit (← nodeField N j "n") (← natField j "i"))
+  | "stepDown" => pure (.stepDown (← nodeField N j "n"))
+  | "apply" => pure (.apply (← nodeField N j "n"))
+  | "observeTerm" => pure (.observeTerm (← nodeField N j "n") (← natField j "t"))
+  | "sendSnapshot" => pure (.sendSnapshot (← nodeField N j "n") (← nodeField N j "dst") (← natField j "k"))
+  | "recvSnapshot" => pure (.recvSnapshot (← nodeField N j "n") (← parseMsg N s (← j.getObjVal? "m")))
+  | "lose" => pure (.lose (← parseMsg N s (← j.getObjVal? "m")))
+  | _ => throw s!"unknown action {a}"
+
+/-! ### printing (hand-built strings: the state is printed after every real event) -/
+
+def listJ (l : List String) : String := "[" ++ ",".intercalate l ++ "]"
+
+def entryJ (e : Entry) : String := s!"[{e.term},{e.cmd}]"
+
+def entriesJ (l : List Entry) : String := listJ (l.map entryJ)
+
+def roleCode : Role → Nat
+  | .follower => 0
+  | .candidate => 1
+  | .leader => 2
+
+def optNatJ : Option Nat → String
+  | none => "null"
+  | some n => toString n
+
+def nodeJ (N : Nat) (ns : NodeSt) : String :=
+  "{\"term\":" ++ toString ns.term ++ ",\"voted\":" ++ optNatJ ns.votedFor ++
+  ",\"role\":" ++ toString (roleCode ns.role) ++ ",\"votes\":" ++ toString ns.votes ++
+  ",\"log\":" ++ entriesJ ns.log ++ ",\"commit\":" ++ toString ns.commit ++
+  ",\"applied\":" ++ toString ns.applied ++
+  ",\"match\":" ++ listJ ((List.range N).map fun j => toString (ns.matchIdx j)) ++ "}"
+
+def stateJ (d : DS) : String :=
+  "{\"nodes\":" ++ listJ ((List.range d.N).map fun i => nodeJ d.N (d.s.nodes i)) ++
+  ",\"nmsgs\":" ++ toString d.s.msgs.length ++ "}"
+
+def msgJ : Msg → String
+  | .reqVote t c d li lt => s!"\{\"k\":\"reqVote\",\"t\":{t},\"cand\":{c},\"dst\":{d},\"li\":{li},\"lt\":{lt}}"
+  | .vote t v c => s!"\{\"k\":\"vote\",\"t\":{t},\"voter\":{v},\"cand\":{c}}"
+  | .append t l d p pt es c =>
+    s!"\{\"k\":\"append\",\"t\":{t},\"ldr\":{l},\"dst\":{d},\"prev\":{p},\"prevTerm\":{pt},\"es\":{entriesJ es},\"commit\":{c}}"
+  | .ack t f l i => s!"\{\"k\":\"ack\",\"t\":{t},\"flw\":{f},\"ldr\":{l},\"idx\":{i}}"
+  | .snapshot t l d k kt c pfx =>
+    s!"\{\"k\":\"snapshot\",\"t\":{t},\"ldr\":{l},\"dst\":{d},\"pos\":{k},\"posTerm\":{kt},\"commit\":{c},\"pfxlen\":{pfx.length}}"
+
+def okJ : String := "{\"ok\":true}"
+
+def failJ (why : String) : String := (Json.mkObj [("ok", false), ("why", why)]).compress
+
+def handle (d : DS) (j : Json) : DS × String :=
+  match j.getObjVal? "N" with
+  | .ok n =>
+    match n.getNat? with
+    | .ok N => ({ N := N, s := init }, okJ)
+    | .error e => (d, failJ ("parse: " ++ e))
+  | .error _ =>
+    match j.getObjVal? "q" with
+    | .ok q =>
+      match q.getStr? with
+      | .ok "state" => (d, stateJ d)
+      | .ok "msgs" => (d, "{\"msgs\":" ++ listJ (d.s.msgs.map msgJ) ++ "}")
+      | _ => (d, failJ "parse: unknown query")
+    | .error _ =>
+      match parseAction d.N d.s j with
+      | .error e => (d, failJ ("parse: " ++ e))
+      | .ok a =>
+        match step d.N d.s a with
+        | none => (d, failJ "guard")
+        | some s' => ({ d with s := materialise d.N s' }, okJ)
+
+partial def loop (stdin stdout : IO.FS.Stream) (d : DS) : IO Unit := do
+  let line ← stdin.getLine
+  if line.isEmpty then return
+  let t := line.trimAscii.toString
+  if t.isEmpty then
+    loop stdin stdout d
+  else
+    match Json.parse t with
+    | .error e =>
+      stdout.putStrLn (failJ ("parse: " ++ e))
+      stdout.flush
+      loop stdin stdout d
+    | .ok j =>
+      let (d', out) := handle d j
+      stdout.putStrLn out
+      stdout.flush
+      loop stdin stdout d'
 
 def run : IO UInt32 := do
-  IO.eprintln "driver component Core: not implemented"
-  return 3
+  loop (← IO.getStdin) (← IO.getStdout) {}
+  return 0
 
 end Driver.Core
